@@ -50,7 +50,7 @@ pub fn run(env: &mut Env) -> Outcome {
         Err(o) => return o,
     };
     // connect consumed the licence; nothing else has been sent
-    let len = 1 + ctxrc.borrow_mut().choose("history_len", 40) as usize;
+    let len = { let mut ctx = ctxrc.borrow_mut(); if ctx.chance("long_history", 1, 12) { 100 + ctx.choose("history_len_long", 80) as usize } else { 1 + ctx.choose("history_len", 40) as usize } };
     let mut states: Vec<St> = vec![St::WaitDemandActive];
     let mut share_id = params.share_id;
     let mut da_count = 0u32;
@@ -118,6 +118,12 @@ pub fn run(env: &mut Env) -> Outcome {
                         let dea = build::deactivate_all_raw(&srv.p, sid);
                         if ctxrc.borrow_mut().chance("deactivate_last", 1, 2) { srv.send_coalesced("error-info+deactivate-all", &[other, dea]); } else { srv.send_coalesced("deactivate-all+error-info", &[dea, other]); }
                         ctxrc.borrow_mut().probe("coalesced_deactivate_all");
+                    } else if ctxrc.borrow_mut().chance("long_source_descriptor", 1, 8) {
+                        // the source descriptor is a variable-length field
+                        let n = *ctxrc.borrow_mut().pick("dea_src_len", &[8170usize, 8181, 8192, 9000, 16384, 30000]);
+                        let raw = build::deactivate_all_raw_with(&srv.p, srv.current_share_id, &vec![0x41u8; n]);
+                        let w = build::send_data_indication(&srv.p, &raw);
+                        srv.queue("deactivate-all(long source descriptor)", &w);
                     } else {
                         srv.send_deactivate_all()
                     }
